@@ -19,6 +19,7 @@ import (
 
 	simplefixgo "github.com/b2broker/simplefix-go"
 	"github.com/b2broker/simplefix-go/session"
+	"github.com/b2broker/simplefix-go/session/messages"
 	"github.com/b2broker/simplefix-go/storages/memory"
 	"vlib"
 	"vsched"
@@ -58,7 +59,40 @@ func c16cDamaged(m []byte, damage string) (out []byte, seqKnown bool) {
 	panic("unknown damage " + damage)
 }
 
+// lenientUnmarshaller: an application's own decoder that skips the integrity checks (what SetUnmarshaller is for).
+type lenientUnmarshaller struct{}
+
+func (lenientUnmarshaller) Unmarshal(msg messages.Builder, d []byte) error { return nil }
+
+// c16SharedOpts: two sessions built from one options object, as the sessions of one acceptor are.  One of them is
+// given a decoder of its own; the other one still refuses damaged messages.
+func c16SharedOpts(c c16cCase) (string, string) {
+	o := opts()
+	w1 := newWorld(wcfg{Role: c.Role, Buf: 10, HbMin: 1, HbMax: 60, HbInt: 30, Opts: o})
+	w2 := newWorld(wcfg{Role: c.Role, Buf: 10, HbMin: 1, HbMax: 60, HbInt: 30, Opts: o})
+	w1.s.SetUnmarshaller(lenientUnmarshaller{})
+	w1.logonOK(30)
+	w2.logonOK(30)
+	if !w2.s.IsLogged() {
+		return "shared-options:other-session-cannot-log-on", "a session that was not given an unmarshaller of its own no longer decodes its Logon"
+	}
+	w3 := newWorld(wcfg{Role: c.Role, Buf: 10, HbMin: 1, HbMax: 60, HbInt: 30, Opts: o}) // created after the call
+	w3.logonOK(30)
+	for i, w := range []*world{w2, w3} {
+		w.take()
+		w.in(badChecksum(w.msg("0")))
+		outs := w.take()
+		if countType(outs, "3") != 1 || w.runDone {
+			return "shared-options:damaged-message-not-rejected", fmt.Sprintf("session %d of 3 (another one was given its own unmarshaller): outs=[%s]", i+2, outsStr(outs))
+		}
+	}
+	return "", ""
+}
+
 func c16cRun(c c16cCase) (sig, detail string) {
+	if c.Damage == "shared-options" {
+		return c16SharedOpts(c)
+	}
 	cn := newConn(0)
 	var s *session.Session
 	st := memory.NewStorage()
@@ -210,6 +244,12 @@ func runC16conn(R *vlib.Out) {
 		return
 	}
 	unit := 0
+	for _, role := range []string{"acc", "ini"} {
+		unit++
+		if vlib.Mine(unit) {
+			one(c16cCase{Scenario: "c16conn", Role: role, Logged: true, Type: "0", Damage: "shared-options", Feed: "one"})
+		}
+	}
 	for _, role := range []string{"acc", "ini"} {
 		for _, logged := range []bool{true, false} {
 			for _, typ := range []string{"0", "1", "2", "5", "A"} {
